@@ -30,9 +30,14 @@ TPL = '"NTDo","NTDs","TPID","THD","THDo","PS","PE","X"'
 FLAGS = ('show_timestamp', 'show_name', 'show_func_qual', 'show_tid', 'show_process', 'show_args')
 
 
+FILTER = {'fclass': ()}        # class filter in force for the listings of the current composition check
+
+
 def listing(api, blob, shows, color, tables=None):
     from pykdebugparser.pykdebugparser import PyKdebugParser
     p = PyKdebugParser()
+    if FILTER['fclass'] and api in ('formatted_traces', 'formatted_kevents'):
+        p.filter_class = list(FILTER['fclass'])
     for f, v in zip(FLAGS, shows):
         setattr(p, f, v)
     p.color = color
@@ -134,6 +139,15 @@ def run(ctx):
         if i % (6 if ctx.quick else 3) == 0:
             for api in ('formatted_kevents', 'formatted_traces', 'formatted_callstacks'):
                 ncompose += check_compose(ctx, api, dump, w, ctx.quick)
+                if api == 'formatted_traces':
+                    # the same under a class filter (helper classes are read whatever columns are shown): a column switched
+                    # off removes that column and alters no other - also not the BODY of a trace that reads the tables
+                    FILTER['fclass'] = rnd.choice([(7,), (4,), (7, 4), (1, 7)])
+                    w2, dump2 = gen_dump(rnd, allow_zero_tid=False, declared_terminate=True)
+                    try:
+                        ncompose += check_compose(ctx, api, dump2, w2, True)
+                    finally:
+                        FILTER['fclass'] = ()
         # process column parsed from the formatted lines, identities from a parallel traces() run
         p = PyKdebugParser()
         r, _ = request(w, p, dump, 'traces')
